@@ -17,7 +17,11 @@ import (
 	"path/filepath"
 	"reflect"
 
+	sdk "github.com/cosmos/cosmos-sdk/types"
 	"github.com/cosmos/cosmos-sdk/types/module"
+	oracletypes "github.com/jackalLabs/canine-chain/v4/x/oracle/types"
+	rnstypes "github.com/jackalLabs/canine-chain/v4/x/rns/types"
+	storagetypes "github.com/jackalLabs/canine-chain/v4/x/storage/types"
 )
 
 type persistedModule struct {
@@ -210,5 +214,108 @@ func persistedModuleTwin(r *RunCtx, moduleName, sig string) error {
 	}
 	r.Count("persisted-module:"+moduleName, true)
 	r.Hist("persisted-state", moduleName+": everything the earlier release exported is still seen")
+	return nil
+}
+
+// restartModuleTwin: the busy chain of the C19 check, with a few records of accepted but unusual shape added, is
+// exported and a new chain is started from that genesis — at an initial height above 1 and under the clock a restarted
+// chain really has during InitChain, the genesis time, which lies before everything the old chain wrote.  Nobody sent a
+// message in between: what the new chain exports is what the old one exported (records the module does not export at
+// all are the business of C19 and its known findings; they are equally absent from both exports).  Reported under the
+// signature of the property whose records they are.
+func restartModuleTwin(r *RunCtx, moduleName, sig string) error {
+	e, err := persistedPopulate()
+	if err != nil {
+		return err
+	}
+	defer e.Close()
+	var mod *c19Module
+	mods := c19Modules()
+	for i := range mods {
+		if mods[i].Name == moduleName {
+			mod = &mods[i]
+		}
+	}
+	if mod == nil {
+		return fmt.Errorf("restart twin: no module %s", moduleName)
+	}
+	trace := []interface{}{map[string]interface{}{"op": "the busy history of the C19 check (more than 100 records of every kind)", "height": e.Height}}
+	shape := func(what string, m sdk.Msg) {
+		res := e.Run(m)
+		trace = append(trace, map[string]interface{}{"op": what, "out": res.Out, "err": res.Err})
+	}
+	switch moduleName {
+	case "storage":
+		// a provider that announces a negative total space, a file with free seats and one prover
+		shape("SetProviderTotalSpace -1", &storagetypes.MsgSetProviderTotalSpace{Creator: Acct(400).String(), Space: -1})
+		_ = e.Fund(Acct(777), "ujkl", 20_000_000_000)
+		shape("InitProvider with total space -1", &storagetypes.MsgInitProvider{Creator: Acct(777).String(), Ip: "https://minus.example.com", TotalSpace: -1})
+		for n := int64(0); n < 3; n++ {
+			out := c19Apply(e, c19Op{Op: "storage.AddProver", B: 400 + int(n), N: n})
+			trace = append(trace, map[string]interface{}{"op": "a verified first proof adds a prover to a file with free seats", "out": out})
+		}
+	case "oracle":
+		shape("CreateFeed whose name ends in a slash", &oracletypes.MsgCreateFeed{Creator: Acct(2).String(), Name: "crowdfeed000/"})
+		shape("CreateFeed with blanks and capitals", &oracletypes.MsgCreateFeed{Creator: Acct(3).String(), Name: " Crowd Feed "})
+	case "rns":
+		shape("Bid on a name with a blank and capitals", &rnstypes.MsgBid{Creator: Acct(3).String(), Name: "Crowd Name.jkl", Bid: sdk.NewInt64Coin("ujkl", 7)})
+	}
+	for _, later := range []int64{0, 6_000_000} { // at once, and after every registration of the history has lapsed
+		h0 := e.Height + later
+		e.At(h0, T0.Add(timeOf(h0)))
+		var old []byte
+		if pn := Guard(func() { old = mod.Export(e) }); pn != "" {
+			r.Finding(sig+"/restart/export-panics", "exporting the "+moduleName+" state panics: "+pn, map[string]interface{}{"trace": trace})
+			return nil
+		}
+		nxt, err := NewEnv()
+		if err != nil {
+			return err
+		}
+		nxt.NoGhost = true
+		nxt.At(h0+1, T0) // initial_height of the new chain; InitChain runs under the genesis time
+		st := nxt.Ctx.KVStore(c19StoreKey(nxt, mod.StoreKey))
+		for _, kv := range mustDump(nxt, mod.StoreKey) {
+			st.Delete(kv.K)
+		}
+		var ierr error
+		pn := Guard(func() { ierr = mod.Import(nxt, old) })
+		step := map[string]interface{}{"op": "export " + moduleName + ", start a new chain from it", "exported_at": h0, "initial_height": h0 + 1, "clock": "genesis time", "panic": pn}
+		if pn != "" || ierr != nil {
+			r.Finding(sig+"/restart/import-failed", fmt.Sprintf("the %s genesis the chain exported cannot be imported: %s %v", moduleName, pn, ierr), map[string]interface{}{"trace": append(trace, step)})
+			nxt.Close()
+			return nil
+		}
+		var now []byte
+		if pn := Guard(func() { now = mod.Export(nxt) }); pn != "" {
+			r.Finding(sig+"/restart/export-panics", "exporting the restarted "+moduleName+" state panics: "+pn, map[string]interface{}{"trace": append(trace, step)})
+			nxt.Close()
+			return nil
+		}
+		nxt.Close()
+		var oldV, nowV interface{}
+		if json.Unmarshal(old, &oldV) != nil || json.Unmarshal(now, &nowV) != nil {
+			return fmt.Errorf("restart twin: unreadable export")
+		}
+		for _, v := range []interface{}{oldV, nowV} {
+			if m, ok := v.(map[string]interface{}); ok {
+				delete(m, "params")
+				// re-derived on export from proof records, which the genesis does not carry (known findings C19-1, C19-5)
+				delete(m, "active_providers_list")
+			}
+		}
+		p := jsonIncluded(oldV, nowV, moduleName)
+		dir := "is missing from"
+		if p == "" {
+			p, dir = jsonIncluded(nowV, oldV, moduleName), "was added to"
+		}
+		if p != "" {
+			r.Finding(sig+"/restart/state-changed-without-a-message", fmt.Sprintf("a restart from the exported genesis (exported at height %d, new chain at initial height %d under the genesis time) changes the %s state although nobody sent a message: %s %s what the new chain holds", h0, h0+1, moduleName, p, dir),
+				map[string]interface{}{"trace": append(trace, step), "at": p})
+			return nil
+		}
+		r.Count(fmt.Sprintf("restart-module:%s:%d", moduleName, later), true)
+	}
+	r.Hist("restart-twin", moduleName+": the restarted chain holds what the old one exported")
 	return nil
 }
